@@ -94,19 +94,7 @@ def strictness(repo, run, rule):
 
 
 def function_node_priority_calls(repo, run, rule):
-    fi = repo.func('FunctionNode.ayns.on_merge_impl')
-    n = 0
-    for c in calls_in(fi.node):
-        if is_method_call(c, member='has_priority_over', ayns=True):
-            n += 1
-            ie = get_kw(c, 'if_equal')
-            ok = unparse(recv_of(c)) == 'other' and c.args and unparse(c.args[0]) == 'self' and isinstance(ie, ast.Constant) and ie.value is True
-            if ok:
-                run.ok(rule, (fi.file, c.lineno, fi.qualname), unparse(c), 'newer node wins ties')
-            else:
-                run.violation(rule, fi, unparse(c), 'function-node merge must let the newer node win on equal priority (other over self, if_equal=True)', node=c)
-    if n < 2:
-        raise AnalysisError('FunctionNode.on_merge_impl: expected two priority tests (string and target branches), found %d' % n)
+    mt.function_node_decisions(repo, run, rule)
 
 
 def survivor_fields(repo, run, rule):
